@@ -2,7 +2,7 @@
    bounded-response statements of C03. *)
 From Coq Require Import ZArith Lia.
 From AV Require Import Base Machine ScopeFrames DeliverInv TreeInv DeliverAlive PotentialInv TreeStep KernelInv
-                       DeliverThms TimerInv TimerThms.
+                       DeliverThms TimerInv TimerThms CheckpointFacts.
 
 (* one callback: the head of the ready queue is run *)
 Definition run_head (s : st) : st :=
@@ -831,7 +831,7 @@ Section StepOut.
         apply byst_exact; [reflexivity|reflexivity|intros Hk; exact Hk].
       + eapply dq_trans; [apply dq_park|apply dq_set_running].
     - now apply Ret.
-    - destruct inc; [now apply Ret|]. cbn [fst blocked].
+    - destruct inc; [now apply Ret|]. destruct (ckif_spins _ _ _); [|now apply Ret]. cbn [fst blocked].
       apply (out_trans t f c a s); [exact O0|]. apply out_neutral.
       + intros G. apply (Good_same t s _ G); try reflexivity; [cbn; discriminate|]. intros y; now repeat split.
       + apply byst_exact; [reflexivity|reflexivity|]. intros Hk. cbn. apply in_or_app. now left.
@@ -1049,7 +1049,8 @@ Proof.
     assert (K1 : rsh s s1) by (unfold s1; destruct inc; apply rsh_same; reflexivity).
     eapply rsh_trans; [exact K1|]. eapply rsh_trans; [apply rsh_park|apply rsh_same; reflexivity].
   - eapply rsh_trans; [exact K0|apply rsh_ret].
-  - destruct inc; [eapply rsh_trans; [exact K0|apply rsh_ret]|]. cbn [fst blocked].
+  - destruct inc; [eapply rsh_trans; [exact K0|apply rsh_ret]|].
+    destruct (ckif_spins _ _ _); [|eapply rsh_trans; [exact K0|apply rsh_ret]]. cbn [fst blocked].
     eapply rsh_trans; [exact K0|]. apply (rsh_append _ _ [HStep t]). reflexivity.
   - eapply rsh_trans; [exact K0|]. eapply rsh_trans; [apply rsh_timer_cancel|apply rsh_ret].
   - eapply rsh_trans; [exact K0|]. eapply rsh_trans; [|apply rsh_ret]. destruct f; apply rsh_same; reflexivity.
@@ -1611,6 +1612,7 @@ Section BareSteps.
       + eapply dq_trans; [exact Q1|]. eapply dq_trans; [apply dq_park|apply dq_set_running].
     - apply Ret; [apply treq_refl|apply G0|reflexivity|apply dq_refl].
     - destruct inc; [apply Ret; [apply treq_refl|apply G0|reflexivity|apply dq_refl]|].
+      destruct (ckif_spins _ _ _); [|apply Ret; [apply treq_refl|apply G0|reflexivity|apply dq_refl]].
       cbn [fst blocked]. apply Fin.
       + eapply treq_trans; [apply treq_bare_yield|apply treq_set_running].
       + apply (KInv_kq s); [apply G0|]. eapply kq_trans; [apply kq_bare_yield|apply kq_set_running].
@@ -1741,19 +1743,33 @@ Section SpinLatency.
       apply Hd; [exact Eh|exact G|now apply El|exact Tk].
   Qed.
 
-  (* t's own step while no request is recorded: checkpoint_if_cancelled yields once more *)
+  (* the cancelled scope c is visible from t: the re-check of the spin (F46) finds it *)
+  Lemma trk_spins s : reach_ok s -> trk t c s -> ckif_spins (nscope s) s (k_cur (tasks s t)) = true.
+  Proof.
+    intros R [[_ [x [Ex Hv]]] [Cc _]]. pose proof (reach_tree s R) as T. rewrite Ex, ckif_spins_is_eff_cancelled.
+    apply (vis_cancelled_eff s c x (nscope s) Hv Cc). intros n Hn.
+    apply (upn_bound s x n (Tree_TreeL s T) Hn (tr_cur_act _ T t x Ex)).
+  Qed.
+
+  (* t's own step while no request is recorded and a cancelled scope is still visible: checkpoint_if_cancelled
+     yields once more *)
   Lemma own_eq s r :
     ready s = HStep t :: r -> k_must (tasks s t) = false -> k_ctl (tasks s t) = CYield YCkIf ->
+    ckif_spins (nscope s) s (k_cur (tasks s t)) = true ->
     run_head s =
     set_running (bare_yield (set_running (upd_task (set_ready s r) t
                    (fun x => tk_must false (k_msg x) (tk_waiter None x))) (Some t)) t) None.
   Proof.
-    intros E Hm Hc. rewrite (run_head_cons s _ r E). set (s1 := set_ready s r).
+    intros E Hm Hc Hsp. rewrite (run_head_cons s _ r E). set (s1 := set_ready s r).
     unfold resume. pose proof (incoming_ctl s1 t None) as Ec.
     assert (Hi : incoming s1 t None =
                  (set_running (upd_task s1 t (fun x => tk_must false (k_msg x) (tk_waiter None x))) (Some t), None)).
     { unfold incoming. change (tasks s1 t) with (tasks s t). now rewrite Hm. }
-    rewrite Hi in *. cbn [fst] in Ec. rewrite Ec. change (tasks s1 t) with (tasks s t). rewrite Hc. reflexivity.
+    rewrite Hi in *. cbn [fst] in Ec. rewrite Ec. change (tasks s1 t) with (tasks s t). rewrite Hc.
+    match goal with |- context [ckif_spins ?n ?a ?x] => assert (Esp : ckif_spins n a x = true) end.
+    { rewrite (ckif_spins_scopes _ s); [|reflexivity]. rewrite <- Hsp. f_equal.
+      cbn [set_running upd_task set_tasks tasks]. rewrite upd_same. reflexivity. }
+    rewrite Esp. reflexivity.
   Qed.
 
   Lemma own_result si r :
@@ -1776,7 +1792,9 @@ Section SpinLatency.
     intros L E Hm.
     assert (R' : reach_ok (run_head s)).
     { rewrite (run_head_step s _ r E). apply reach_ok_step; [apply L|reflexivity]. }
-    revert R'. rewrite (own_eq s r E Hm (ly_ctl _ L)). intros R'.
+    assert (Hsp : ckif_spins (nscope s) s (k_cur (tasks s t)) = true).
+    { destruct (ly_cases _ L) as [H|[_ Tk]]; [congruence|]. apply trk_spins; [apply L|exact Tk]. }
+    revert R'. rewrite (own_eq s r E Hm (ly_ctl _ L) Hsp). intros R'.
     set (s' := set_running _ None) in *.
     assert (Et : tasks s' t = tk_must false (k_msg (tasks s t)) (tk_waiter None (tasks s t))).
     { unfold s'. cbn. unfold upd. now rewrite Nat.eqb_refl. }
